@@ -13,6 +13,16 @@ CLAIMED = {
    note="Trusted: Coq kernel; the hand-written transliteration (validated by the differential run, not proved against C); libc strtod only through the stated contract; 'never writes to the input' and real stack use are observed on the implementation (read-only mapping, small-stack thread), not proved; that the returned tree can be printed/deleted is observed on the implementation and proved for the ledger count only.",
    technique="Coq proof (fuel induction with a ledger/offset invariant per parser function) + differential correspondence under guard pages",
    design="DESIGN.md section 6, C01"),
+ 'C10': dict(
+   text="Coq theorems over the buffer-level parser transliteration (ParseDefs.v) and the list-level functional specification of the accepted dialect (ParseSpec.text_l): for every content, length, termination mode and allocation schedule a failure publishes equal end and error positions strictly inside max(len,1) and a success leaves the error pointer NULL with 0 <= end <= len, and with termination required the end designates a zero byte inside the buffer (C10_positions); with no allocation failure the entry point accepts exactly when text_l accepts the declared bytes, with the same tree and the same parse end - with termination required exactly when the value is followed by whitespace and a zero byte inside the buffer, otherwise whatever follows the value is ignored (C10_end_exact, a full simulation proof of both string passes, numbers, containers, BOM and the end-of-buffer step-back); the bytes before the parse end re-parse by themselves to the same tree (C10_prefix_reparse); the reference strtod satisfies the contract used (C10_strtod_ref_contract). Tied to /repo every run by executing the extracted model, the extracted text_l and the guard-page/ASan build of cJSON.c on all parser input streams with and without return_parse_end, both rnt values and buffers extending beyond the first zero byte; the implementation's prefix re-parse is executed and compared.",
+   note="Trusted: Coq kernel; hand-written transliteration validated by the differential run; libc strtod through the contract strtod_ok + strtod_stable (consumes a non-empty prefix; the consumed prefix converts by itself to the same value), proved for the reference implementation and validated against glibc by execution.",
+   technique="Coq proof (simulation between the offset-based buffer parser and a list-level specification, by fuel induction) + differential correspondence",
+   design="DESIGN.md section 6, C10"),
+ 'C20': dict(
+   text="PARTIAL by nature (see note). Coq theorem for every number of threads, every per-thread list of library calls on thread-private data, every schedule and every initial shared error position: at every moment each thread is in exactly the state (results so far, private trees, remaining calls) of its run alone (C20_noninterference_partial, C20_finished_as_alone_partial; generic in the call semantics, needing only the footprint lemma that results and private post-states do not depend on the shared state, C20_generic), instantiated with the modelled calls (parse entry points publishing the error position, minify, compare, pointer resolve/construct, delete). The absence of any other shared location is a set of kernel-checked obligations over facts REGENERATED FROM /repo's SOURCES ON EVERY RUN by the translator tools/gen_facts.py (clang AST of the preprocessed files): the only written static-storage objects are global_error, global_hooks and cJSON_Version's text, each written only by its documented writer; global_error is read only by cJSON_GetErrorPtr, which no library function calls; only thread-safe C library functions are used (C20_statics, C20_writers, C20_error_position_isolated, C20_externals). The implementation is exercised every run under ThreadSanitizer: 8 threads x seeded private call sequences over parse/print/duplicate/compare/edit/minify/patch/merge/sort/pointer/delete, per-thread result digests compared with the same sequences run alone, any race report off the documented error position is a violation.",
+   note="Partial: the theorem interleaves whole calls; that instruction-level interleavings add nothing when threads share no location is C11 data-race freedom, not formalised. The model's footprint lemma holds by construction of the models (no modelled call takes the shared state as input), so the real tie to the code is the generated source facts and the TSan/alone-vs-concurrent run. ThreadSanitizer only sees schedules that occur. Trusted: Coq kernel, gen_facts.py (clang AST walk), POSIX thread-safety of the listed libc functions under an unchanged locale, libtsan.",
+   technique="Coq proof (schedule induction over a footprint lemma) + kernel-checked facts regenerated from the source by a translator + ThreadSanitizer differential run",
+   design="DESIGN.md section 6, C20"),
  'C12': dict(
    text="Coq theorems over the value-level transliteration of cJSON_Compare (CompareDefs.v) with IEEE binary64 doubles as Coq SpecFloat: the recursion bound always suffices (C12_total); for all pairs of trees with distinct keys per object (distinct after ASCII folding when case-insensitive) the result is true exactly when the declarative relation sem_eq holds (C12_spec); symmetric, reflexive (same pointer: any valid tree; equal copy: NaN-free), flags ignored, NULL/invalid give false (C12_symmetric, C12_reflexive, C12_flags_ignored, C12_null_invalid_false); compare_double is symmetric, reflexive off NaN and never equates finite with non-finite (C12_num), with the pinned defect re-derived (C12_num_refuted_pinned). Tied to /repo by running the extracted model and the ASan build of cJSON.c on the same generated pairs (single-point mutations, permutations, case variants, number grid) every run; purity (arguments unmodified) is observed on the implementation by dumping both trees before and after.",
    note="Trusted: Coq kernel; hand-written transliteration validated by the differential run; python's float arithmetic in the verdict oracle; C locale tolower.",
